@@ -36,7 +36,7 @@ def dir_pattern(rng, which=None):
     ones given.
     """
     pats = ["single", "distinct", "py_lua_shared", "nested", "cf_only", "no_outdir", "log_apart", "relative",
-            "trailing_slash"]
+            "trailing_slash", "cwd_only"]
     pat = which or rng.choice(pats)
     d = dict(DIRS)
     argv = []
@@ -64,6 +64,10 @@ def dir_pattern(rng, which=None):
         argv = ["--outdir-c-fortran", d["c_fortran"], "--outdir-python", d["python"],
                 "--outdir-lua", d["lua"], "--outdir-yaml", d["yaml"], "--logdir", d["log"]]
         mk += [d["c_fortran"], d["python"], d["lua"], d["yaml"], d["log"]]
+    elif pat == "cwd_only":
+        # no directory option at all: everything goes to the current directory
+        argv = []
+        mk += [WORK]
     elif pat == "relative":
         # relative to the cwd of the run (WORK)
         argv = ["--outdir", "out_rel", "--outdir-python", "out_rel/py", "--logdir", "./out_rel/log"]
@@ -136,7 +140,7 @@ def swarm_jobs(seeds, n, corpus, label="swarm"):
         out.append(Job("%s/%d-%s" % (label, i, base.id.split("/")[1]), files, argv,
                        sorted(set(mk)),
                        meta={"source": label, "yaml": base.meta["yaml"], "dirpat": pat,
-                             "opts": opts, "lists": lists, "cwd_free": pat not in ("no_outdir", "relative")}))
+                             "opts": opts, "lists": lists, "cwd_free": pat not in ("no_outdir", "relative", "cwd_only")}))
     return out
 
 
